@@ -7,6 +7,8 @@ import (
 	"net/http"
 	"net/url"
 	"strconv"
+	"strings"
+	"time"
 
 	"github.com/apache/arrow-go/v18/arrow"
 )
@@ -57,6 +59,10 @@ const (
 	c21RpcErrorHeader
 	c21Location
 	c21EmptyBody
+	c21TimeoutInFlight // the caller's context expires while the request is on the wire
+	c21BadStatus       // 503 with a text body
+	c21OverCap         // a body longer than the client's encoded-size limit
+	c21BadEncoding     // Content-Encoding the client does not speak
 	c21Kinds
 )
 
@@ -89,7 +95,7 @@ func verifC21Post(c *HttpClient, ctx context.Context, endpoint string, body []by
 
 	kind := verifChoice("response.kind", c21Kinds)
 	verifC21LastKind = kind
-	if kind == c21TransportErr {
+	if kind == c21TransportErr || kind >= c21TimeoutInFlight {
 		return clientHTTPResponse{}, &RpcError{Type: "TransportError", Message: "HTTP request failed"}
 	}
 	if kind == c21EmptyBody {
@@ -97,16 +103,21 @@ func verifC21Post(c *HttpClient, ctx context.Context, endpoint string, body []by
 	}
 	st := &verifInStream{schema: verifDataSchema, failAt: -1}
 	resp := clientHTTPResponse{status: 200, body: []byte("S")}
-	if verifNondetBool("response.log_first") {
+	// the optional decorations vary on the first two POSTs of a history; later POSTs carry none
+	rich := len(verifC21Sent) <= 2
+	if rich && verifNondetBool("response.log_first") {
 		st.batches = append(st.batches, verifNewBatch(verifDataSchema, 0, 0, []string{MetaLogLevel, MetaLogMessage}, []string{"INFO", "hello"}))
 	}
 	newTok, newCall := verifC21Mint(), ""
 	keys, vals := []string{"user.key", MetaStreamState}, []string{"user.val", newTok}
-	if verifNondetBool("response.new_call_token") {
+	if rich && verifNondetBool("response.new_call_token") {
 		newCall = "call" + strconv.Itoa(verifC21Minted)
 		keys, vals = append(keys, MetaCallState), append(vals, newCall)
 	}
-	rows := int64(verifChoice("response.rows", 2))
+	rows := int64(1)
+	if rich {
+		rows = int64(verifChoice("response.rows", 2))
+	}
 	verifC21Seq++
 	tag := 100 + verifC21Seq
 	switch kind {
@@ -150,17 +161,89 @@ func verifC21Post(c *HttpClient, ctx context.Context, endpoint string, body []by
 	return resp, nil
 }
 
+// verifC21Ctx is the caller's context: the transport model can make it expire.
+type verifC21Ctx struct{ err error }
+
+func (c *verifC21Ctx) Deadline() (time.Time, bool)       { return time.Time{}, false }
+func (c *verifC21Ctx) Done() <-chan struct{}             { return nil }
+func (c *verifC21Ctx) Err() error                        { return c.err }
+func (c *verifC21Ctx) Value(key interface{}) interface{} { return nil }
+
+var verifC21CallCtx *verifC21Ctx
+
+type verifC21RawBody struct{ data []byte }
+
+func (b *verifC21RawBody) Read(p []byte) (int, error) { panic("read through the io.ReadAll stub only") }
+func (b *verifC21RawBody) Close() error               { return nil }
+
+func verifC21RawReadAll(r io.Reader) ([]byte, error) {
+	limit := int64(-1)
+	if lr, ok := r.(*io.LimitedReader); ok {
+		limit, r = lr.N, lr.R
+	}
+	b, ok := r.(*verifC21RawBody)
+	if !ok {
+		panic("verifC21RawReadAll: unexpected reader")
+	}
+	d := b.data
+	if limit >= 0 && int64(len(d)) > limit {
+		d = d[:limit]
+	}
+	return append([]byte(nil), d...), nil
+}
+
+// verifC21HistoryDo is net/http under the exchange-history harness: the real post()
+// runs, and what comes back from the wire is the adversarial server's choice.
+func verifC21HistoryDo(c *http.Client, req *http.Request) (*http.Response, error) {
+	resp, err := verifC21Post(nil, nil, verifC21Endpoint(req), nil)
+	switch verifC21LastKind {
+	case c21TimeoutInFlight:
+		verifC21CallCtx.err = context.DeadlineExceeded
+		return nil, context.DeadlineExceeded
+	case c21BadStatus:
+		return &http.Response{StatusCode: 503, Header: http.Header{}, ContentLength: -1, Body: &verifC21RawBody{data: []byte("upstream unavailable")}}, nil
+	case c21OverCap:
+		return &http.Response{StatusCode: 200, Header: http.Header{}, ContentLength: -1, Body: &verifC21RawBody{data: make([]byte, 80)}}, nil
+	case c21BadEncoding:
+		h := http.Header{}
+		h.Set(contentEncodingHeader, "br")
+		return &http.Response{StatusCode: 200, Header: h, ContentLength: -1, Body: &verifC21RawBody{data: []byte("S")}}, nil
+	}
+	if err != nil {
+		return nil, errors.New("read tcp: connection reset by peer")
+	}
+	h := http.Header{}
+	if resp.rpcError {
+		h.Set(rpcErrorHeader, "true")
+	}
+	return &http.Response{StatusCode: 200, Header: h, ContentLength: int64(len(resp.body)), Body: &verifC21RawBody{data: resp.body}}, nil
+}
+
+var verifC21LastEndpoint string
+
+func verifC21Endpoint(req *http.Request) string { return verifC21LastEndpoint }
+
+func verifC21HistoryNewRequest(ctx context.Context, method, u string, body io.Reader) (*http.Request, error) {
+	// the endpoint is the URL's tail after the host
+	verifC21LastEndpoint = strings.TrimPrefix(u, "http://h/")
+	return &http.Request{Method: method, Header: http.Header{}}, nil
+}
+
 func verifC21Client() *HttpClient {
-	return &HttpClient{maxRequest: 1 << 20, maxEncoded: 1 << 20, maxDecoded: 1 << 20}
+	return &HttpClient{baseURL: &url.URL{Scheme: "http", Host: "h"}, inner: &http.Client{}, headers: http.Header{},
+		maxRequest: 1 << 20, maxEncoded: 64, maxDecoded: 64}
 }
 
 // An exchange stream never sends a cursor twice and refuses to continue after
 // any turn whose outcome is not a completely parsed, well-formed response.
 //
 //verif:use ipc
-//verif:stub (*github.com/Query-farm/vgi-rpc-go/vgirpc.HttpClient).post = verifC21Post
+//verif:stub (*net/http.Client).Do = verifC21HistoryDo
+//verif:stub net/http.NewRequestWithContext = verifC21HistoryNewRequest
+//verif:stub io.ReadAll = verifC21RawReadAll
+//verif:stub github.com/Query-farm/vgi-rpc-go/vgirpc.boundedText = verifC21BoundedText
 //verif:stub crypto/rand.Read = verifRandRead
-//verif:bound histories of 3 (thorough: 4) client actions, each Exchange(valid input) | Exchange(input of another schema) | Cancel, on an exchange stream opened with cursor tok0/call0; every POST is answered by any of 12 response kinds: well-formed, transport-level failure (stands for reset, timeout, non-2xx, over-cap, bad encoding: everything post() turns into an error), unreadable body, schema drift, truncation at any batch, trailing bytes, exception envelope (before/after the data), missing cursor, two data batches, error header without envelope, external location, empty body; optional leading log batch, optional re-minted call token, 0 or 1 rows. post() itself is replaced by this model (its caps are decided by verifH_C21_post_caps); IPC is the abstract codec
+//verif:bound histories of 3 (thorough: 4) client actions, each Exchange(valid input) | Exchange(input of another schema) | Cancel, on an exchange stream opened with cursor tok0/call0; every POST runs through the real post() against a net/http model and is answered by any of 16 response kinds: well-formed, connection reset, the caller's context expiring while the request is in flight, 503 with a text body, a body over the client's encoded-size cap, an unsupported Content-Encoding, unreadable body, schema drift, truncation at any batch, trailing bytes, exception envelope (before/after the data), missing cursor, two data batches, error header without envelope, external location, empty body; optional leading log batch, optional re-minted call token, 0 or 1 rows (these three vary on the first two POSTs of a history). net/http's Do is the model (post()'s numeric caps over ANY sizes are decided by verifH_C21_post_caps); IPC is the abstract codec
 func verifH_C21_exchange_history() {
 	verifC21Reset(true)
 	c := verifC21Client()
@@ -178,7 +261,8 @@ func verifH_C21_exchange_history() {
 		switch verifChoice("action", 3) {
 		case 0:
 			in := verifNewBatch(verifDataSchema, 1, 7+i, []string{"in.key", MetaStreamState, MetaCancel}, []string{"in.val", "forged", "1"})
-			got, err := s.Exchange(context.Background(), in)
+			verifC21CallCtx = &verifC21Ctx{}
+			got, err := s.Exchange(verifC21CallCtx, in)
 			posted := len(verifC21Sent) - before
 			if !live {
 				verifReach("exchange-after-ambiguous-turn")
@@ -216,13 +300,15 @@ func verifH_C21_exchange_history() {
 			}
 		case 1:
 			in := verifNewBatch(verifEmptySchema, 1, 9, nil, nil)
-			got, err := s.Exchange(context.Background(), in)
+			verifC21CallCtx = &verifC21Ctx{}
+			got, err := s.Exchange(verifC21CallCtx, in)
 			verifAssert(len(verifC21Sent) == before && err != nil && got == nil, "an input that does not match the declared schema is refused before any byte is sent")
 			if live {
 				verifReach("schema-refusal-keeps-session")
 			}
 		case 2:
-			err := s.Cancel(context.Background())
+			verifC21CallCtx = &verifC21Ctx{}
+			err := s.Cancel(verifC21CallCtx)
 			posted := len(verifC21Sent) - before
 			if !live {
 				verifReach("cancel-after-ambiguous-turn")
